@@ -56,8 +56,14 @@ def form_of(text):
 def parse(text):
     """-> Instr or None"""
     t = clean(text)
+    m = re.search(r'Subtract line ' + LABEL + r' from line ' + LABEL + r'\. If zero or less, enter 0\. If more than zero and not a multiple of \$([0-9,]+), enter the next multiple of \$([0-9,]+)', t)
+    if m and m.group(3) == m.group(4):
+        return Instr('nextmult', a=m.group(2), b=m.group(1), step=m.group(3).replace(',', ''))
     if re.search(r'far right column|not a multiple of', t):
         return None
+    m = re.search(r'Divide line ' + LABEL + r' by line ' + LABEL + r'\. Enter the result as a decimal \(?rounded to at least (?:three|3) places\)?\. If the result is 1\.000 or more, enter .{0,2}1\.000', t)
+    if m:
+        return Instr('ratio', a=m.group(1), b=m.group(2))
     floor = bool(re.search(r'If (?:zero or less|less than zero|the result is (?:zero or less|less than zero)), enter 0', t)) or \
         bool(re.search(r'If line ' + LABEL + r' is more than line ' + LABEL + r', enter 0', t))
     m = re.search(r'If line ' + LABEL + r' is more than line ' + LABEL + r', subtract line ' + LABEL + r' from line ' + LABEL + r'[.,; ]', t)
@@ -84,7 +90,7 @@ def parse(text):
     m = re.search(r'Multiply line ' + LABEL + r' by line ' + LABEL + r'[.,; ]', t)
     if m:
         return Instr('product', a=m.group(1), b=m.group(2))
-    m = re.search(r'Enter the (smaller|larger) of line ' + LABEL + r' or line ' + LABEL + r'[.,; ]', t)
+    m = re.search(r'Enter the (smaller|larger) of line ' + LABEL + r' or (?:line )?' + LABEL + r'[.,; ]', t)
     if m:
         return Instr(m.group(1), a=m.group(2), b=m.group(3))
     m = re.search(r'Enter the (smaller|larger) of line ' + LABEL + r' or \$([0-9,]+)', t)
